@@ -95,7 +95,8 @@ def run_property(prop, tier, seed, only=None):
         f" Tier {tier}: {len(recs)} obligations, "
         f"{sum(1 for r in recs if r['verdict'] == 'discharged')} discharged, "
         f"{sum(1 for r in recs if r['verdict'] == 'inconclusive')} inconclusive, {violations} violations.")
-    evidence.write(prop, tier, seed, recs, time.time() - t0, violations, assumptions, explanation)
+    if not only:       # partial (debug) runs never overwrite the evidence file
+        evidence.write(prop, tier, seed, recs, time.time() - t0, violations, assumptions, explanation)
     for l in lines:
         print(l, flush=True)
     print(f"SUMMARY property={prop} tier={tier} obligations={len(recs)} "
